@@ -127,7 +127,8 @@ def check_solve(case, rec):
     )
     if with_var:
         sill = spec["var"] + spec["nugget"]
-        tv = kc.tol(case, cnd, sill)
+        # (with drift terms the variance of an extrapolation can exceed the sill by orders of magnitude)
+        tv = kc.tol(case, cnd, max(sill, float(np.max(np.abs(ref["var"])))))
         errv = float(np.max(np.abs(res[1] - ref["var"])))
         rec.discrepancy("variance", errv, tv)
         require(
@@ -190,7 +191,7 @@ def check_meta(case, rec):
     sc = max(1.0, float(np.nanmax(np.abs(vals))))
     sill = spec["var"] + spec["nugget"]
     t = kc.tol(case, cnd, sc) * 10
-    tv = kc.tol(case, cnd, sill) * 10
+    tv = kc.tol(case, cnd, max(sill, float(np.max(np.abs(ref["var"]))))) * 10
     prs = np.random.RandomState(case["perm_seed"])
     with quiet():
         k = lib(kc.build_krige, case, model=model, _tags=tags)
@@ -384,7 +385,7 @@ def check_khist(case, rec):
                     f, v = k(pos.copy())
                     sc = max(1.0, float(np.max(np.abs(cond_val))), float(np.max(np.abs(ref["field"]))))
                     t = kc.tol(c2, ref["cond"], sc) * 10
-                    tv = kc.tol(c2, ref["cond"], cur["var"] + cur["nugget"]) * 10
+                    tv = kc.tol(c2, ref["cond"], max(cur["var"] + cur["nugget"], float(np.max(np.abs(ref["var"]))))) * 10
                     ef = float(np.max(np.abs(f - ref["field"])))
                     ev = float(np.max(np.abs(v - ref["var"])))
                     rec.discrepancy("history_estimate", ef, t)
